@@ -275,6 +275,32 @@ fn main() {
           Err(_) => println!("waitgroup wait BLOCKED count={} hook_fired={}", wg.get_count(), fired.load(std::sync::atomic::Ordering::SeqCst)),
         }
       }
+      "waitgroup_waiters" => {
+        // waitgroup_waiters <n>: n tasks park in wait(), then the last worker calls done(): every one must return
+        use rzmq::verif_facade::VWaitGroup;
+        let n: usize = it.next().unwrap().parse().unwrap();
+        let rt = tokio::runtime::Builder::new_current_thread().enable_all().build().unwrap();
+        let released = rt.block_on(async move {
+          let wg = VWaitGroup::new();
+          wg.add(1);
+          let mut hs = Vec::new();
+          for _ in 0..n {
+            let w = wg.clone();
+            hs.push(tokio::spawn(async move { w.wait().await }));
+          }
+          tokio::time::sleep(Duration::from_millis(50)).await; // all waiters are parked now
+          wg.done();
+          let mut released = 0;
+          for h in hs {
+            if tokio::time::timeout(Duration::from_millis(500), h).await.is_ok() {
+              released += 1;
+            }
+          }
+          released
+        });
+        println!("waitgroup_waiters released={} of {}{}", released, n, if released < n { " BLOCKED with count=0" } else { "" });
+        std::process::exit(0);
+      }
       "lb_wait_race" => {
         // schedule from the solver: the sender sees no peer, a peer is added (+notify_waiters), only then
         // the sender creates its Notified future.
@@ -720,6 +746,82 @@ fn main() {
             }
           }
         }
+      }
+      "router_send_blocks" => {
+        // public API only: ROUTER (ROUTER_MANDATORY, SNDHWM=1, SNDTIMEO as given: -1 = wait for ever) sends 1 MiB
+        // messages to a raw DEALER peer that completes the handshake and then never reads. Once a send blocks we wait
+        // <wait_s> seconds for it: with SNDTIMEO=-1 it must still be blocked.
+        let sndtimeo: i32 = it.next().unwrap().parse().unwrap();
+        let wait_s: u64 = it.next().unwrap().parse().unwrap();
+        let rt = tokio::runtime::Builder::new_multi_thread().worker_threads(2).enable_all().build().unwrap();
+        let res = rt.block_on(async move {
+          use std::io::{Read, Write};
+          let ctx = rzmq::Context::new().unwrap();
+          let router = ctx.socket(rzmq::SocketType::Router).unwrap();
+          router.set_option(rzmq::socket::options::SNDHWM, 1i32).await.unwrap();
+          router.set_option(rzmq::socket::options::SNDTIMEO, sndtimeo).await.unwrap();
+          router.set_option(rzmq::socket::options::ROUTER_MANDATORY, 1i32).await.unwrap();
+          router.bind("tcp://127.0.0.1:0").await.unwrap();
+          let ep = String::from_utf8(router.get_option(rzmq::socket::options::LAST_ENDPOINT).await.unwrap()).unwrap();
+          let addr = ep.trim_start_matches("tcp://").to_string();
+          let mut greeting = vec![0xFFu8, 0, 0, 0, 0, 0, 0, 0, 0, 0x7F, 3, 1];
+          let mut mech = b"NULL".to_vec();
+          mech.resize(20, 0);
+          greeting.extend_from_slice(&mech);
+          greeting.push(0);
+          greeting.extend_from_slice(&[0u8; 31]);
+          let mut ready = b"\x05READY\x0bSocket-Type\x00\x00\x00\x06DEALER\x08Identity\x00\x00\x00\x01P".to_vec();
+          let mut hs = greeting.clone();
+          hs.push(0x04);
+          hs.push(ready.len() as u8);
+          hs.append(&mut ready);
+          let (stop_tx, stop_rx) = std::sync::mpsc::channel::<()>();
+          let peer = tokio::task::spawn_blocking(move || {
+            let mut s = std::net::TcpStream::connect(addr).unwrap();
+            s.write_all(&hs).unwrap();
+            // read exactly the ROUTER's greeting + READY, then stop reading but keep the connection open
+            let mut buf = [0u8; 64];
+            let _ = s.read_exact(&mut buf);
+            let mut hdr = [0u8; 2];
+            let _ = s.read_exact(&mut hdr);
+            let mut body = vec![0u8; hdr[1] as usize];
+            let _ = s.read_exact(&mut body);
+            let _ = stop_rx.recv_timeout(Duration::from_secs(wait_s + 60));
+            drop(s);
+          });
+          tokio::time::sleep(Duration::from_millis(400)).await;
+          let payload = vec![0x5Au8; 1 << 20];
+          let mut sent = 0usize;
+          let mut outcome = String::from("never blocked");
+          for _ in 0..64 {
+            let mut idf = rzmq::Msg::from_vec(b"P".to_vec());
+            idf.set_flags(rzmq::MsgFlags::MORE);
+            let frames = vec![idf, rzmq::Msg::from_vec(payload.clone())];
+            let fut = router.send_multipart(frames);
+            tokio::pin!(fut);
+            match tokio::time::timeout(Duration::from_secs(2), &mut fut).await {
+              Ok(Ok(())) => sent += 1,
+              Ok(Err(e)) => {
+                outcome = format!("send {} failed at once: {:?}", sent, e);
+                break;
+              }
+              Err(_) => {
+                // this send is blocked on the full pipe: keep waiting for it
+                let t0 = Instant::now();
+                outcome = match tokio::time::timeout(Duration::from_secs(wait_s), &mut fut).await {
+                  Ok(r) => format!("blocked send returned after {} s: {:?}", 2 + t0.elapsed().as_secs(), r),
+                  Err(_) => format!("blocked send STILL BLOCKED after {} s", 2 + wait_s),
+                };
+                break;
+              }
+            }
+          }
+          let _ = stop_tx.send(());
+          let _ = peer.await;
+          format!("sent_before_block={} {}", sent, outcome)
+        });
+        println!("router_send_blocks sndtimeo={} {}", sndtimeo, res);
+        std::process::exit(0);
       }
       "actor_early_data" => {
         // public API only: a PULL socket listens on TCP; a raw peer writes greeting + READY + one data frame
